@@ -31,6 +31,7 @@ def run(prog, rep):
     rep.part(supplied, prog, rep)
     rep.part(others, prog, rep)
     rep.part(read, prog, rep)
+    rep.part(axes_table, prog, rep)
     rep.expect_min("C20.save", 5)
     rep.expect_min("C20.contour", 6)
     rep.expect_min("C20.supplied", 1)
@@ -45,6 +46,47 @@ def run(prog, rep):
     rep.expect_min("C20.design", 9)
     rep.explanation += (" C20.design: the rows of C17 for calculate_design_conditions - the helper whose result plot_2D_contour scatters works on the same "
                         "closed polyline that is drawn (closed with its FIRST point, axes exchanged iff swap_axis).")
+
+def axes_table(prog, rep):
+    """plot_histograms_of_interval_distributions draws one histogram per interval on axes taken from a literal layout table:
+    for every admitted number of intervals the index must be inside the table and the layout must have enough axes."""
+    from vstat.terms import ordered
+    q = "virocon.plotting._get_n_axes"
+    fn = prog.func(q)
+    rep.analysed(fn)
+    b = builder(prog, fn, inline=False)
+    pcs = path_conditions(prog, fn, b)
+    cfg = cfg_of(fn)
+    n = ("param", [p for p in fn.positional_params][0])
+    M = None
+    for st in cfg.all_stmts():
+        if isinstance(st, ast.Raise):
+            for l in pcs.of(st):
+                o = ordered(l)
+                if o is not None and o[1] == n and o[0][0] == "const" and isinstance(o[0][1], int):
+                    M = o[0][1] if o[2] else o[0][1] - 1     # raise when n > M  /  n >= M + 1
+    sub = None
+    for st in cfg.all_stmts():
+        for node in ast.walk(st) if isinstance(st, (ast.Assign, ast.Expr, ast.Return)) else []:
+            if isinstance(node, ast.Subscript) and isinstance(node.ctx, ast.Load):
+                base = b.term(node.value, st)
+                if base[0] == "list" and all(x[0] == "tuple" and len(x[1]) == 2 and all(y[0] == "const" for y in x[1]) for x in base[1]):
+                    sub = (st, base, b.term(node.slice, st))
+    if M is None or sub is None:
+        raise AnalysisError(f"{q}: the layout table / the admitted maximum of intervals was not found")
+    st, table, idx = sub
+    c = 0 if idx == n else idx[3][1] if idx[0] == "bin" and idx[1] == "-" and idx[2] == n and idx[3][0] == "const" else None
+    c = -idx[3][1] if c is None and idx[0] == "bin" and idx[1] == "+" and idx[2] == n and idx[3][0] == "const" else c
+    if c is None:
+        rep.fail("C20.others", f"{q}:in-range", fn.where(st), f"the table index {show(idx)[:40]} is not the number of intervals plus/minus a constant")
+        return
+    L = len(table[1])
+    rep.check(0 <= 1 - c and M - c <= L - 1, "C20.others", f"{q}:in-range", fn.where(st), f"index {show(idx)} stays in the table of {L} layouts for 1..{M} intervals",
+              f"for {M} intervals (the admitted maximum) the index {show(idx)} is {M - c}, outside the table of {L} layouts (last index {L - 1}): IndexError instead of the plots")
+    short = [k for k in range(1, M + 1) if 0 <= k - c < L and table[1][k - c][1][0][1] * table[1][k - c][1][1][1] < k]
+    rep.check(not short, "C20.others", f"{q}:capacity", fn.where(st), "every layout has at least as many axes as intervals",
+              f"the layout chosen for {short[:4]} interval(s) has fewer axes than intervals: per-interval estimates are not all drawn")
+
 
 def find_calls(fn, b, pred):
     out = []
